@@ -154,6 +154,20 @@ func genCertX(tier string, r *rng) {
 	pssSpki := xSeq(xSeq(xOID(1, 2, 840, 113549, 1, 1, 10)), keyBits)
 	emitCertX("certx", xCert(cn("k"), 23, "200101000000Z", 23, "300101000000Z", ecdsa256, rsaSpki), "KEYALG", "RSA", "KEYSIZE", "1024 bits")
 	emitCertX("certx", xCert(cn("k"), 23, "200101000000Z", 23, "300101000000Z", ecdsa256, pssSpki), "KEYALG", "RSA", "KEYSIZE", "1024 bits")
+	// subject keys of algorithms the tool has no name for (ML-DSA-65, SLH-DSA, a private arc): the encoded algorithm is
+	// shown by its OID — a "Public key" heading with nothing under it says nothing about the key that is encoded
+	for _, arcs := range [][]int{{2, 16, 840, 1, 101, 3, 4, 3, 18}, {2, 16, 840, 1, 101, 3, 4, 3, 20}, {1, 2, 3, 4}, {1, 3, 101, 99}} {
+		unkSpki := xSeq(xSeq(xOID(arcs...)), xTLV(0x03, []byte{0}, make([]byte, 32)))
+		dotted := ""
+		for i, a := range arcs {
+			if i > 0 {
+				dotted += "."
+			}
+			dotted += fmt.Sprint(a)
+		}
+		emitCertX("certx", xCert(cn("k"), 23, "200101000000Z", 23, "300101000000Z", ecdsa256, unkSpki), "KEYALG", dotted)
+		emitCertX("certxpem", xCert(cn("k"), 23, "200101000000Z", 23, "300101000000Z", ecdsa256, unkSpki), "KEYALG", dotted)
+	}
 	// names: multi-valued RDNs must stay distinguishable from the same attributes in separate RDNs
 	o, ou := []int{2, 5, 4, 10}, []int{2, 5, 4, 11}
 	c3 := []int{2, 5, 4, 3}
